@@ -291,6 +291,14 @@ MUT_ALPHA = b" ,:()[]{}\"'\\/.-+_#\n\tXabnxu01e9dhms%~!=@`TZ"
 CLAUSE_ALPHA = MUT_ALPHA + b"<>|!=.,  ldeot"
 
 
+def valid_utf8(s):
+    try:
+        s.decode("utf-8")
+        return True
+    except UnicodeDecodeError:
+        return False
+
+
 def mutate_text(rng, s, alpha=MUT_ALPHA):
     MUT_ALPHA = alpha
     s = bytearray(s)
@@ -604,8 +612,9 @@ def run(ck):
     pool = [s for s in printed if len(s) <= 120]
     for _ in range(nmut):
         s = mutate_text(rng, rng.choice(pool))
-        if b"<" in s and re.search(rb"\.[A-Z]", s):
-            continue      # `.Type<...>` syntax is not modelled
+        if (b"<" in s and re.search(rb"\.[A-Z]", s)) or not valid_utf8(s):
+            continue      # `.Type<...>` syntax is not modelled; a mutant that cuts a multi-byte character (the micro sign of a
+            #               printed duration) is not valid UTF-8: Go's input stream reads U+FFFD, the byte-level lexer model the byte
         texts.append(s)
     for s in rng.sample(pool, min(len(pool), ck.n(60, 600))):
         texts.append(s)
@@ -616,8 +625,8 @@ def run(ck):
              if "out" in o and not x.get("headtime") and all(p["k"] != "temporal" for p in x["premises"] or []) and len(o["out"]["s"]) <= 400]
     for _ in range(ck.n(120, 3000) if cpool else 0):
         s = mutate_text(rng, rng.choice(cpool), CLAUSE_ALPHA)
-        if (b"<" in s and re.search(rb"\.[A-Z]", s)) or re.search(rb"Package|Use|Decl", s):
-            continue      # `.Type<...>` syntax and declarations are not modelled
+        if (b"<" in s and re.search(rb"\.[A-Z]", s)) or re.search(rb"Package|Use|Decl", s) or not valid_utf8(s):
+            continue      # `.Type<...>` syntax and declarations are not modelled; Go reads an invalid byte as U+FFFD
         ctexts.append(s)
     groups["clause_text"] = run_group(ck, "clause_text", ctexts)
     # escape / unescape on arbitrary byte strings
